@@ -206,7 +206,9 @@ class Interp:
             getattr(ctx.logger, st.get("level", "info"))(f"L:{pos}")
             return ["log"]
         if op == "raise":
-            raise make_exc(st["cls"], st.get("msg", "user raise at " + pos))
+            ex_ = make_exc(st["cls"], st.get("msg", "user raise at " + pos) if "size" not in st else "E" * st["size"])
+            self.w.rec("user-raise", pos=pos, cls=st["cls"], inv_level=isinstance(ex_, self.exc.InvocationError))
+            raise ex_
         if op == "item":
             return canon(item)
         meth = getattr(self, "op_" + op)
@@ -460,7 +462,7 @@ class Interp:
         w = self
 
         def fn(child_ctx, it, index, all_items):
-            body = bodies[index] if bodies else st["body"]
+            body = bodies[index] if bodies is not None else st["body"]
             ret = st.get("rets", [None] * len(items))[index] if st.get("rets") else st.get("ret")
             run = w._branch_body(pos, index, body, ret)
             return run(child_ctx, it)
